@@ -12,11 +12,13 @@ from __future__ import annotations
 
 import itertools
 import pathlib
+import tempfile
 import types
 
 import numpy as np
 
 import vx
+from vx import symnp
 from vx.patching import Patch
 
 PROPERTY = "C19"
@@ -53,6 +55,13 @@ def tasks(tier, seed):
     out.append({"fn": "numbering", "kwargs": {}, "label": "number"})
     out.append({"fn": "names", "kwargs": {}, "label": "names"})
     out.append({"fn": "save_files", "kwargs": {}, "label": "save_to_files"})
+    # contents: what Outputs.save_to_file hands to every writer, for ordered format lists of the image bucket
+    fmts = ["fits", "npy", "jpg", "png", "txt"]
+    lists = [list(c) for c in itertools.permutations(fmts, 2)] + [["jpg", "fits", "npy"], ["fits", "jpg", "npy"], ["png", "jpg", "txt"], ["npy", "png", "fits", "jpg"]]
+    for fl in lists:
+        out.append({"fn": "content", "kwargs": {"formats": fl, "bucket": "image"}, "label": "content/image/" + "+".join(fl)})
+    for fl in (["fits", "npy"], ["npy", "txt", "fits"]):
+        out.append({"fn": "content", "kwargs": {"formats": fl, "bucket": "pixel"}, "label": "content/pixel/" + "+".join(fl)})
     return out
 
 
@@ -340,8 +349,110 @@ def save_files():
     vx.prove("C19/files/reported_implies_written_when_fresh", all(f in written for f in fresh))
 
 
+LOSSLESS = ("fits", "npy", "txt", "csv", "hdf")
+
+
+def content(formats, bucket):
+    """Outputs.save_to_file: every lossless format receives exactly the bucket's array (values and dtype), a picture format the
+    documented 8-bit rescaling of it, whatever the order of the format list."""
+    import pyxel.outputs.outputs as oo
+    from pyxel.outputs import ExposureOutputs
+    from pyxel.pipelines import DetectionPipeline, Processor
+
+    from .common import make_ccd, sym_array
+
+    bits = 12
+    got = []
+
+    def recorder(fmt):
+        def f(current_output_folder, data, name, with_auto_suffix=True, run_number=None, header=None):
+            got.append((fmt, data, name))
+            return pathlib.Path(str(current_output_folder)) / f"{name.replace('.', '_')}.{fmt}"
+
+        return f
+
+    with Patch() as p:
+        p.numpy("pyxel.outputs.outputs")
+        for fmt, fname in (("fits", "to_fits"), ("npy", "to_npy"), ("txt", "to_txt"), ("csv", "to_csv"), ("png", "to_png"), ("jpg", "to_jpg"), ("hdf", "to_hdf")):
+            p.attr(oo, fname, recorder(fmt), "recording writer (receives what the real writer would be handed)")
+        det = make_ccd(2, 2)
+        det.characteristics._adc_bit_resolution = bits
+        if bucket == "image":
+            src = sym_array("img", (2, 2), kind="int", dtype="uint16")
+            for e in src.elems():
+                vx.assume((e >= 0) & (e <= 2**bits - 1), "image values are ADC codes")
+            det.image._array = src
+        else:
+            src = sym_array("pix", (2, 2))
+            det.pixel._array = src
+        snap = src.copy()
+        proc = Processor(detector=det, pipeline=DetectionPipeline())
+        out = ExposureOutputs(output_folder=PREFIX + "/out", save_data_to_file=[{f"detector.{bucket}.array": list(formats)}])
+        out._current_output_folder = pathlib.Path(PREFIX + "/out/run")
+        out.save_to_file(processor=proc)
+    lab = f"{bucket}/" + "+".join(formats)
+    vx.prove(f"C19/content/every_format_written_once/{lab}", [g[0] for g in got] == list(formats))
+    ok = []
+    for fmt, data, name in got:
+        elems = symnp.asarray(data).elems()
+        if fmt in LOSSLESS:
+            ok += [tuple(data.shape) == (2, 2), str(data.dtype) == str(snap.dtype)] + [a == b for a, b in zip(elems, snap.elems())]
+        else:
+            # 8-bit preview of the full ADC range (lossy by design; one count of slack for the float rounding of 255 / (2^bits - 1))
+            ok += [str(data.dtype) == "uint8"] + [((a - 1) * (2**bits - 1) <= 255 * b) & (255 * b <= (a + 1) * (2**bits - 1)) & (a >= 0) & (a <= 255) for a, b in zip(elems, snap.elems())]
+    vx.prove(f"C19/content/writer_receives_bucket/{lab}", vx.all_of(ok))
+    vx.prove(f"C19/content/bucket_untouched/{lab}", vx.all_of([a == b for a, b in zip(src.elems(), snap.elems())]))
+
+
+def _replay_content(kwargs, model):
+    import shutil
+
+    from astropy.io import fits
+    from pyxel.outputs import ExposureOutputs
+    from pyxel.pipelines import DetectionPipeline, Processor
+
+    from .common import make_ccd
+
+    bucket, formats = kwargs["bucket"], kwargs["formats"]
+    det = make_ccd(2, 2)
+    det.characteristics._adc_bit_resolution = 12
+    if bucket == "image":
+        vals = [int(model.get(f"img_{i}", 1000 + 300 * i)) for i in range(4)]
+        if max(vals) < 256:
+            vals = [v + 1000 for v in vals]  # values below 256 survive an 8-bit detour unnoticed
+        src = np.array(vals, dtype=np.uint16).reshape(2, 2)
+        det.image.array = src.copy()
+    else:
+        src = np.array([float(model.get(f"pix_{i}", 0.5 + i)) for i in range(4)]).reshape(2, 2)
+        det.pixel.array = src.copy()
+    tmp = tempfile.mkdtemp(prefix="vx_c19_")
+    try:
+        out = ExposureOutputs(output_folder=tmp, save_data_to_file=[{f"detector.{bucket}.array": list(formats)}])
+        out.create_output_folder()
+        tree = out.save_to_file(processor=Processor(detector=det, pipeline=DetectionPipeline()))
+        folder = pathlib.Path(out.current_output_folder)
+        bad = {}
+        for f in sorted(folder.iterdir()):
+            ext = f.suffix.lstrip(".")
+            if ext == "npy":
+                back = np.load(f)
+            elif ext == "fits":
+                back = fits.getdata(f)
+            elif ext == "txt":
+                back = np.array([[float(x) for x in line.split("|")] for line in f.read_text().splitlines() if line.strip()])
+            else:
+                continue
+            if back.shape != src.shape or not np.array_equal(np.asarray(back, dtype=float), src.astype(float)) or (ext != "txt" and back.dtype.kind != src.dtype.kind):
+                bad[f.name] = {"file_holds": np.asarray(back).tolist(), "dtype": str(back.dtype)}
+        return bool(bad), {"bucket": src.tolist(), "format_list": formats, "files_differing_from_the_bucket": bad}
+    finally:
+        shutil.rmtree(tmp, ignore_errors=True)
+
+
 def replay(oid, kwargs, model, data):
     """Real file system in a scratch directory."""
+    if data["fn"] == "content":
+        return _replay_content(kwargs, model)
     import os
     import tempfile
 
